@@ -798,7 +798,46 @@ class PathEval:
         return out
 
     def _clone(self, st):
-        return {"env": dict(st["env"]), "mem": dict(st["mem"]), "facts": dict(st["facts"])}
+        c = {"env": dict(st["env"]), "mem": dict(st["mem"]), "facts": dict(st["facts"])}
+        if "unroll" in st:
+            c["unroll"] = {k: (list(v) if v else None) for k, v in st["unroll"].items()}
+        return c
+
+    def _array_loop(self, h, st):
+        """(iterator local, elements) when the loop at header h is `for x in [e0, .., eN-1]` over an array literal (by-value array iterator whose
+        current value is into_iter of an array aggregate with at most 8 elements): such a loop is walked element by element instead of once
+        with its variables havocked -- it is N copies of its body, exactly"""
+        for b in sorted(self.body.loops[h]):
+            t = self.body.blocks[b]["term"]
+            if t["k"] == "call" and "array::IntoIter<" in t["func"]["full"] and t["func"]["path"].endswith("Iterator>::next") and t["args"]:
+                a = t["args"][0]
+                l = None
+                if a["k"] in ("move", "copy") and not a["place"]["p"]:
+                    # `&mut it`, possibly re-borrowed (`_r1 = &mut it; _r2 = &mut *_r1; next(move _r2)`)
+                    cur = a["place"]["l"]
+                    for _ in range(3):
+                        src = [s_ for s_ in self.body.blocks[b]["stmts"] if s_["k"] == "assign" and s_["place"]["l"] == cur and not s_["place"]["p"] and s_["rv"]["k"] == "ref"]
+                        if not src:
+                            break
+                        pl = src[-1]["rv"]["place"]
+                        if not pl["p"]:
+                            l = pl["l"]
+                            break
+                        if [e["k"] for e in pl["p"]] == ["deref"]:
+                            cur = pl["l"]
+                        else:
+                            break
+                if l is None:
+                    return None
+                v = self.read_local(st, l)
+                while isinstance(v, tuple) and v and v[0] in ("ref", "refmut"):
+                    v = v[1]
+                if isinstance(v, tuple) and v and v[0] == "call" and v[1].endswith("::into_iter") and "IntoIterator" in v[1] and v[3]:
+                    arr = v[3][0]
+                    if isinstance(arr, tuple) and arr[:2] == ("agg", "array") and len(arr[4]) <= 8:
+                        return l, tuple(arr[4])
+                return None
+        return None
 
     def _finish(self, out, blocks, events, end, st):
         self.npaths += 1
@@ -810,13 +849,25 @@ class PathEval:
         body = self.body
         while True:
             if bb in onpath:
-                # back edge (or re-entry): stop here
-                self._finish(out, blocks, events, ("back", bb), st)
-                return
+                un = st.get("unroll", {}).get(bb)
+                if un and un[2] <= len(un[1]):
+                    # the next element of a loop over an array literal: walk its body again
+                    onpath = onpath - self.body.loops[bb]
+                else:
+                    # back edge (or re-entry): stop here
+                    self._finish(out, blocks, events, ("back", bb), st)
+                    return
             if bb in stop_at and blocks:
                 self._finish(out, blocks, events, ("stop", bb), st)
                 return
-            if bb in body.loops:
+            if bb in body.loops and "unroll" not in st:
+                st["unroll"] = {}
+            if bb in body.loops and bb not in st["unroll"]:
+                al = self._array_loop(bb, st)
+                st["unroll"][bb] = [al[0], al[1], 0] if al else None
+            if bb in body.loops and st["unroll"][bb]:
+                pass
+            elif bb in body.loops:
                 for l in self._loop_defs[bb]:
                     st["env"][l] = ("havoc", l, bb, self.read_local(st, l))
                 # forget memory facts that may be overwritten in the loop
@@ -857,6 +908,18 @@ class PathEval:
                 f = t["func"]
                 args = tuple(self.operand(st, a) for a in t["args"])
                 path = f["path"]
+                if "array::IntoIter<" in f["full"] and path.endswith("Iterator>::next") and args and st.get("unroll"):
+                    r = args[0]
+                    rl = r[1][1] if isinstance(r, tuple) and r[0] == "refmut" and isinstance(r[1], tuple) and r[1][0] == "loc" else None
+                    hit = [u for u in st["unroll"].values() if u and u[0] == rl]
+                    if hit and t["target"] is not None:
+                        u = hit[0]
+                        OPT = "std::option::Option"
+                        item = ("agg", "adt", OPT, "Some", (u[1][u[2]],), ("0",)) if u[2] < len(u[1]) else ("agg", "adt", OPT, "None", (), ())
+                        u[2] += 1
+                        self.assign(st, t["dest"], item, bb, events)
+                        bb = t["target"]
+                        continue
                 if path.endswith("box_assume_init_into_vec_unsafe"):
                     # `vec![a, b]` (current expansion: the array is written into an uninitialised box, which is then turned into a Vec):
                     # evaluated as the older expansion `<[_]>::into_vec(Box::new([a, b]))`, i.e. into_vec([a, b])
